@@ -7,7 +7,7 @@ exec 9>/tmp/wt/verify.lock; flock 9
 WT=/tmp/wt/verify
 if [ ! -d $WT ]; then git -C /repo worktree add -q --detach $WT HEAD || exit 2; fi
 git -C $WT checkout -q --detach $(git -C /repo rev-parse HEAD) 2>/dev/null; git -C $WT checkout -- . ; git -C $WT clean -fdq -e _build
-export TEST_HELPERS=$WT/test/include
+export TEST_HELPERS=$WT/test/include TEST_INC=$WT/test/include
 OUT=/verif/seeded/$NAME; mkdir -p $OUT; cp -r $SRC/* $OUT/ 2>/dev/null
 LOG=$OUT/verify.log; : > $LOG
 # (c) demo on clean HEAD
